@@ -65,6 +65,65 @@ stdout << h(13) << " whole" << newline;
 '''
 
 
+# A consumer whose result depends on a LATER archive member without requiring it: member 2 extends a domain
+# of member 1 with a category, the consumer tests `S has Describable` at run time.
+SHAPE = '''#include "aldor"
+Describable: Category == with { describe: % -> String };
+Shape: with { unit: () -> % } == add {
+	Rep == MachineInteger;
+	import from Rep;
+	unit(): % == per 1;
+}
+'''
+SHAPEX = '''#include "aldor"
+#library SH "shape.ao"
+import from SH;
+extend Shape: Describable == add {
+	describe(s: %): String == "a described shape";
+}
+'''
+USE = '''#include "aldor"
+#include "aldorio"
+#library T "libshape.al"
+import from T;
+import from String;
+show(S: with { unit: () -> % }): () == {
+	if S has Describable then
+		stdout << (describe(unit()$S)$S) << newline;
+	else
+		stdout << "an anonymous shape" << newline;
+}
+show(Shape);
+'''
+
+
+def ar_layout(d):
+    """[(header offset, data size)] of every member of an ar archive (raw structure, '//' included)."""
+    out, pos = [], 8
+    while pos + 60 <= len(d):
+        try:
+            size = int(d[pos + 48:pos + 58].decode("ascii").strip() or "0")
+        except ValueError:
+            break
+        out.append((pos, size))
+        pos += 60 + size + (size & 1)
+    return out
+
+
+def cut_kind(layout, k):
+    """'boundary' | 'inside' (strictly inside a header or data) | 'padding' (only a final padding byte missing) | 'magic'"""
+    if k < 8:
+        return "magic"
+    for h, size in layout:
+        if k == h:
+            return "boundary"
+        if h < k < h + 60 + size:
+            return "inside"
+        if k == h + 60 + size and size & 1:
+            return "padding"
+    return "boundary"
+
+
 def classify(rc, out, ref):
     """ref = (rc, out) of the intact run."""
     if rc == 124:
@@ -119,6 +178,15 @@ class World:
             "ao-unit": ("whole.ao", self.whole_ao, {}, ["-laldor", "-Fc=out.c", "-ginterp", "whole.ao"]),
             "fm-unit": ("whole.fm", self.whole_fm, {}, ["-laldor", "-Fc=out.c", "-ginterp", "whole.fm"]),
         }
+        for nm, txt in (("shape.as", SHAPE), ("shapex.as", SHAPEX)):
+            open(d + "/" + nm, "w").write(txt)
+        rc, out = self.al(["-Fao", "shape.as"], d)
+        rc2, out2 = self.al(["-Fao", "shapex.as"], d)
+        if rc != 0 or rc2 != 0:
+            raise C.BuildError("shape units do not compile: " + (out + out2)[-300:])
+        C.run(["ar", "cr", "libshape.al", "shape.ao", "shapex.ao"], cwd=d, timeout=30)
+        self.shape_al = open(d + "/libshape.al", "rb").read()
+        self.scen["al-opt"] = ("libshape.al", self.shape_al, {"use.as": USE.encode()}, ["-Y.", "-ginterp", "use.as"])
         self.ref = {}
         for s in self.scen:
             self.ref[s] = self.run(s, self.scen[s][1], "ref-" + s)
@@ -206,13 +274,26 @@ def enumerate_faults(rep, tier, info, world):
                     cases.append((it["scenario"], "truncation", off, data[:off]))
                 else:
                     cases.append((it["scenario"], "single-byte", off, data[:off] + bytes([it["new_byte"]]) + data[off + 1:]))
+    opt = world.scen["al-opt"][1]
+    lay = ar_layout(opt)
+    ks = set(range(0, 9))
+    for h, size in lay:
+        ks |= set(range(h, h + 61)) | {h + 60 + size, h + 60 + size + (size & 1)}
+        body = list(range(h + 61, h + 60 + size))
+        ks |= set(body if thorough else rng.sample(body, min(120, len(body))))
+    for k in sorted(x for x in ks if x < len(opt)):
+        cases.append(("al-opt", "truncation", k, opt[:k]))
     for scen in world.scen:
+        if scen == "al-opt":
+            continue
         data = world.scen[scen][1]
         full = thorough or scen == "ao-lib" or len(data) < 3000
         for k in trunc_lengths(len(data), full, 1500 if scen == "al-lib" else 250):
             cases.append((scen, "truncation", k, data[:k]))
     vals = lambda b: sorted({b ^ 0x01, b ^ 0x80, 0x00, 0xFF} - {b})
     for scen in world.scen:
+        if scen == "al-opt":
+            continue
         data = world.scen[scen][1]
         offs = []
         if scen.startswith("ao"):
@@ -268,6 +349,10 @@ def enumerate_faults(rep, tier, info, world):
             rclass = re.sub(r"section=\w+", "contents", region).replace("member/", "member-")
             rp["region"] = region
             key = "%s:%s:%s:%s" % (scen.split("-")[0], rclass, kind, cls)
+            if scen.startswith("al") and kind == "truncation" and cut_kind(ar_layout(intact), off) in ("boundary", "padding"):
+                # a prefix that ends exactly between two members IS a valid archive (theorem ar_boundary_cut_accepted)
+                key = "al:cut-at-member-boundary:%s" % cls
+                rp["cut"] = cut_kind(ar_layout(intact), off)
             if pred is not None:
                 # inside the modelled region the model's own outcome is part of the key: a fault the model
                 # predicts (the Index bug) is a different defect from a fault where it predicts a refusal
@@ -298,6 +383,134 @@ def enumerate_faults(rep, tier, info, world):
                         pred, cls, kind, off), rp, no_input=True)
                 # otherwise the keyed violation above already carries the failing input
     return stats
+
+
+def py_ar_members(d):
+    """Independent reading of an ar(1) archive (GNU long names): [(name, data offset)] of the *.ao members."""
+    if d[:8] != b"!<arch>\n":
+        return None
+    out, pos, table = [], 8, b""
+    while pos + 60 <= len(d):
+        h = d[pos:pos + 60]
+        name = h[:16].decode("latin1")
+        try:
+            size = int(h[48:58].decode("ascii").strip() or "0")
+        except ValueError:
+            break
+        data = pos + 60
+        if name.startswith("//"):
+            table = d[data:data + size]
+        else:
+            if name.startswith("/") and name[1:].strip().isdigit():
+                i = int(name[1:].strip())
+                nm = re.split(rb"[/\n\0]", table[i:])[0].decode("latin1")
+            else:
+                nm = re.split(r"[/ \0]", name)[0]
+            if re.search(r".\.ao$", nm) and data < len(d):
+                out.append((nm, data))
+        pos = data + size + (size & 1)
+    return out
+
+
+def stage_archives(rep, tier, info):
+    """read_ar (extracted) versus archive.c's arRead (harness) versus an independent parser, on the .al files
+    of the built tree and on a generated archive with long member names, and on every prefix of a small one."""
+    import glob
+    drv, har = c05.Line(c05.build_driver()), c05.Line(c05.build_harness())
+    rng = C.rng("C17/ar")
+    als = sorted(set(glob.glob(C.RB + "/**/*.al", recursive=True)))
+    if tier == "quick":
+        small = [f for f in als if os.path.getsize(f) < 400000]
+        als = rng.sample(small, min(25, len(small)))
+    st = {"archives": 0, "members": 0, "prefixes": 0, "bad": 0}
+    work = C.scratch("c17ar")
+    # a generated archive: long names force the "//" name table and "/N" indirect names
+    names = ["a.ao", "averyveryverylongmembername.ao", "notanobject.txt", "Second_Long_Member_Name_42.ao", "z.ao"]
+    for i, nm in enumerate(names):
+        open(os.path.join(work, nm), "wb").write(bytes(rng.randrange(256) for _ in range(rng.choice([1, 2, 7, 60, 61]))))
+    C.run(["ar", "cr", "gen.al"] + names, cwd=work, timeout=30)
+    als = [os.path.join(work, "gen.al")] + als
+
+    def members_of(ans):
+        if ans is None:
+            return None
+        if ans.startswith("NOTARCH"):
+            return "NOTARCH"
+        body = ans.split(" | ")[0].split()[1:]
+        return [(bytes.fromhex(x.split(":")[0]).decode("latin1"), int(x.split(":")[1], 16)) for x in body]
+    for f in als:
+        d = open(f, "rb").read()
+        st["archives"] += 1
+        a = drv.ask("ar " + c05.hexb(d), timeout=600)
+        m = members_of(a)
+        c = har.ask("armembers " + f, timeout=120)
+        try:
+            cm = [(bytes.fromhex(x.split(":")[0]).decode("latin1"), int(x.split(":")[1], 16)) for x in (c or "").split("|")[0].split()] if c is not None else None
+            if c is not None and int(c.split("|")[1].strip()[1:]) != 0:
+                cm = cm + [("<%s diagnostics on an intact archive>" % c.split("|")[1].strip(), -1)]
+        except (ValueError, IndexError):
+            cm = [("<arRead printed: %s>" % (c or "")[:120], -1)]        # a diagnostic instead of a member list
+        pm = py_ar_members(d)
+        st["members"] += len(m) if isinstance(m, list) else 0
+        diag = a.split(" | ")[1].strip() if (a and " | " in a) else ""
+        if pm is not None and cm is not None and cm != pm:
+            st["bad"] += 1
+            rep.violation("archive.c does not find the members of an intact archive: %s" % os.path.basename(f),
+                          {"kind": "ar", "file": f, "arRead": str(cm)[:300], "expected": str(pm)[:300]}, key="ar:intact:members-differ")
+        elif m != cm or diag:
+            st["bad"] += 1
+            rep.violation("correspondence C17/archive no longer checks: read_ar (model) and arRead disagree on %s" % os.path.basename(f),
+                          {"kind": "ar", "file": f, "model": str(m)[:300], "arRead": str(cm)[:300], "diag": diag}, no_input=True)
+    # every prefix of the generated archive: members AND the refusal bit (did reading raise ALDOR_E_ArTruncated /
+    # ArBadNumber?) -- model, archive.c (arRead on the prefix written to a file) and the layout oracle:
+    # a cut strictly inside a member's 60-byte header or its data must be reported.
+    d = open(os.path.join(work, "gen.al"), "rb").read()
+    full = py_ar_members(d)
+    lay = ar_layout(d)
+    seen = set()
+    st["prefix_refused"] = 0
+    for k in range(len(d)):
+        st["prefixes"] += 1
+        a = drv.ask("ar " + c05.hexb(d[:k]), timeout=60)
+        m = members_of(a)
+        mdiag = len(a.split(" | ")[1].split()) if (a and " | " in a) else 0
+        pf = os.path.join(work, "prefix.al")
+        open(pf, "wb").write(d[:k])
+        c = har.ask("armembers " + pf, timeout=60)
+        try:
+            cpart, epart = c.split("|")
+            cm = [(bytes.fromhex(x.split(":")[0]).decode("latin1"), int(x.split(":")[1], 16)) for x in cpart.split()]
+            cerr = int(epart.strip()[1:])
+        except Exception:
+            cm, cerr = None, None
+        kind = cut_kind(lay, k)
+        want_refused = (kind == "inside")
+        st["prefix_refused"] += 1 if cerr else 0
+        rp = {"kind": "ar-prefix", "k": k, "cut": kind, "archive_hex": d.hex(), "arRead": str(cm)[:200], "arRead_errors": cerr,
+              "model": str(m)[:200], "model_diag": mdiag}
+        if cerr is None:
+            # the harness died: arReadNameTable asks for (next - ftell) bytes, a size_t underflow when the header of
+            # the "//" name table itself is cut; the compiler proper survives this (checked end to end) -- counted, not judged
+            st["harness_died"] = st.get("harness_died", 0) + 1
+            if kind != "inside":
+                rep.violation("arRead dies on a prefix that ends %s a member" % kind, rp, key="al:%s-cut:fault" % kind)
+            continue
+        # the property, on the implementation
+        if want_refused and cerr == 0:          # (a diagnostic at a boundary, e.g. right after a name table, is allowed)
+            key = "al:%s-cut:%s" % (kind, "reported" if cerr else "not-reported")
+            if key not in seen:
+                seen.add(key)
+                rep.violation("archive.c reading a %d-byte prefix (cut %s a member) raises %s diagnostic(s)" % (
+                    k, "inside" if kind == "inside" else "at the " + kind + " of", cerr), rp, key=key)
+            continue
+        # model versus implementation
+        if k >= 8 and (m != cm or (mdiag > 0) != (cerr > 0)) and "model" not in seen:
+            seen.add("model")
+            rep.violation("correspondence C17/archive no longer checks: read_ar and arRead differ on a %d-byte prefix "
+                          "(members %s / %s, diagnostics %s / %s)" % (k, str(m)[:80], str(cm)[:80], mdiag, cerr), rp, no_input=True)
+    drv.close()
+    har.close()
+    return st
 
 
 def run(rep, tier):
@@ -335,6 +548,8 @@ def run(rep, tier):
     t2 = time.time()
     st = enumerate_faults(rep, tier, info, world)
     t3 = time.time()
+    ar = stage_archives(rep, tier, info)
+    t4 = time.time()
     sizes = {s: len(world.scen[s][1]) for s in world.scen}
     rep.add_cov(evaluations=st["cases"], distinct_nontrivial=st["cases"],
                 traces_validated_against_impl=st["model_compared"],
@@ -343,8 +558,8 @@ def run(rep, tier):
                      "sampled offsets elsewhere; thorough: every length of every file, 3000 body offsets",
                 samples=[{"scenario": s, "file": world.scen[s][0], "bytes": sizes[s], "cmd": world.scen[s][3]} for s in world.scen],
                 input_distribution={"by_class": st["by_class"], "by_scenario": st["by_scen"],
-                                    "model_compared": st["model_compared"], "model_agree": st["model_agree"]},
-                stage_seconds={"generate+proof": round(t1 - t0, 1), "build": round(t2 - t1, 1), "enumerate": round(t3 - t2, 1)})
+                                    "model_compared": st["model_compared"], "model_agree": st["model_agree"], "archives": ar},
+                stage_seconds={"generate+proof": round(t1 - t0, 1), "build": round(t2 - t1, 1), "enumerate": round(t3 - t2, 1), "archives": round(t4 - t3, 1)})
     rep.assume(
         "outcome classes: fault = signal / exit >= 128 / 'Program fault' / 'Compiler bug' / 'Bug:' / abort / non-zero exit without diagnostic; "
         "hang = no exit within 20 s and, retried, none within 60 s; refused = non-zero exit with a diagnostic; same = exit status, stdout+stderr and generated C/Lisp identical to the intact run",
